@@ -509,7 +509,9 @@ func (a *Authenticator) ClientHandshake(ctx context.Context) (*SecurityNegotiati
 
 	if serverAddr != "" && a.config.Command >= 0 {
 		cmdStr := fmt.Sprintf("%d", a.config.Command)
-		if entry, ok := cache.LookupByCommand(a.config.SecurityTag, serverAddr, cmdStr); ok {
+		// A cached session without a key is not resumable (the server refuses it, see
+		// handleSessionResumption): negotiate afresh instead of attempting it.
+		if entry, ok := cache.LookupByCommand(a.config.SecurityTag, serverAddr, cmdStr); ok && entry.KeyInfo() != nil {
 			slog.Info(fmt.Sprintf("🔐 CLIENT: Found cached session %s for %s, attempting to resume...",
 				redactSessionID(entry.ID()), serverAddr), "destination", "cedar")
 
@@ -680,6 +682,14 @@ func (a *Authenticator) handleSessionResumption(ctx context.Context, sessionID s
 				entry, ok, cache = e, true, global
 			}
 		}
+	}
+	// A session that carries no key (negotiated without a common cipher) cannot
+	// protect the resumed connection: anyone who presents its id would be taken for
+	// the peer that established it. Never resume it; treat it as unknown so the
+	// requester falls back to a full handshake.
+	if ok && (entry.KeyInfo() == nil || len(entry.KeyInfo().Data) == 0) {
+		slog.Info(fmt.Sprintf("🔐 SERVER: Session %s has no key, refusing to resume it", redactSessionID(sessionID)), "destination", "cedar")
+		ok = false
 	}
 	if !ok {
 		slog.Info(fmt.Sprintf("🔐 SERVER: Session %s not found or expired", redactSessionID(sessionID)), "destination", "cedar")
